@@ -156,6 +156,7 @@ fn call(entry: &str, data: &[u8]) -> Outcome {
         "sm2.pub.from_hex" => okerr(Sm2PublicKey::from_hex_string(&text)),
         "sm2.pub.spki_der" => okerr(Sm2PublicKey::from_public_key_der(data)),
         "sm2.pub.spki_pem" => okerr(Sm2PublicKey::from_public_key_pem(&text)),
+        "sm2.pub.parse" => okerr(text.parse::<Sm2PublicKey>()),
         "sm2.priv.new" => okerr(Sm2PrivateKey::new(data)),
         "sm2.priv.from_hex" => okerr(Sm2PrivateKey::from_hex_string(&text)),
         "sm2.priv.pkcs8_der" => okerr(Sm2PrivateKey::from_pkcs8_der(data)),
@@ -341,19 +342,61 @@ fn record(ctx: &Ctx, c: &Case, o: &Outcome) {
     }
 }
 
-/// replay in-process on a detached thread with a watchdog (a hang must not hang the replay)
+/// replay in a child process of its own (a stack overflow or an abort inside the library must not take the
+/// replaying process with it), under the same wall-clock watchdog as the exploration
 pub fn replay(ctx: &Arc<Ctx>, v: &Value) {
     let c: Case = serde_json::from_value(v.clone()).expect("C20 case");
     ctx.state();
     ctx.call();
-    let (tx, rx) = mpsc::channel();
-    let c2 = c.clone();
+    let exe = std::env::current_exe().expect("current exe");
+    let mut child = match Command::new(&exe).arg("c20case").stdin(Stdio::piped()).stdout(Stdio::piped()).stderr(Stdio::null()).spawn() {
+        Ok(c) => c,
+        Err(e) => {
+            ctx.machinery_error(format!("cannot spawn child: {}", e));
+            return;
+        }
+    };
+    {
+        let mut si = child.stdin.take().unwrap();
+        let _ = si.write_all(serde_json::to_string(&c).unwrap().as_bytes());
+    }
+    let stdout = child.stdout.take().unwrap();
+    let (tx, rx) = mpsc::channel::<String>();
     std::thread::spawn(move || {
-        install_panic_hook();
-        let _ = tx.send(run_guarded(&c2));
+        let mut s = String::new();
+        let _ = std::io::Read::read_to_string(&mut BufReader::new(stdout), &mut s);
+        let _ = tx.send(s);
     });
-    let o = rx.recv_timeout(Duration::from_secs(10)).unwrap_or(Outcome::Timeout);
+    let o = match rx.recv_timeout(Duration::from_secs(20)) {
+        Ok(s) => match serde_json::from_str::<Value>(s.trim()) {
+            Ok(v) => match v["o"].as_str() {
+                Some("ok") => Outcome::Ok,
+                Some("err") => Outcome::Err,
+                _ => Outcome::Panic(v["msg"].as_str().unwrap_or("").to_string()),
+            },
+            Err(_) => Outcome::Abort,
+        },
+        Err(_) => {
+            let _ = child.kill();
+            Outcome::Timeout
+        }
+    };
+    let _ = child.wait();
     record(ctx, &c, &o);
+}
+
+/// child mode for one case given as JSON on stdin
+pub fn case_main() {
+    let mut s = String::new();
+    let _ = std::io::Read::read_to_string(&mut std::io::stdin(), &mut s);
+    let c: Case = serde_json::from_str(&s).expect("C20 case");
+    let line = match run_guarded(&c) {
+        Outcome::Ok => json!({"o": "ok"}),
+        Outcome::Err => json!({"o": "err"}),
+        Outcome::Panic(p) => json!({"o": "panic", "msg": p}),
+        _ => unreachable!(),
+    };
+    println!("{}", line);
 }
 
 fn cases(tier: Tier, seed: u64) -> Vec<Case> {
@@ -412,6 +455,34 @@ fn cases(tier: Tier, seed: u64) -> Vec<Case> {
                 push(&mut v, entry, &data, { let _ = fname; format!("sweep/{}", length_class(len, &vlens)) });
             }
         }
+        // point-carrying inputs: every length under every SEC1 tag byte (the form the tag announces need
+        // not be the form the caller's flag announces), and the valid encodings of the sibling entries
+        if entry.starts_with("sm2.decrypt/") || entry == "sm2.pub.new" {
+            for lead in [0x02u8, 0x03, 0x04, 0x06, 0x07] {
+                for len in 1..=*maxlen {
+                    for fill in [Some(0x00u8), Some(0xffu8), None] {
+                        let mut data = match fill {
+                            Some(b) => vec![b; len],
+                            None => g.bytes(len),
+                        };
+                        data[0] = lead;
+                        push(&mut v, entry, &data, format!("sweep-under-point-tag/{}", length_class(len, &vlens)));
+                    }
+                }
+            }
+        }
+        if entry.starts_with("sm2.decrypt/") {
+            for (e2, valids2, _) in &table {
+                if e2.starts_with("sm2.decrypt/") && e2 != entry {
+                    for valid in valids2 {
+                        push(&mut v, entry, valid, "valid-for-another-form".into());
+                        for t in 0..valid.len() {
+                            push(&mut v, entry, &valid[..t], "truncation-of-valid-for-another-form".into());
+                        }
+                    }
+                }
+            }
+        }
         for valid in valids {
             push(&mut v, entry, valid, "valid".into());
             for t in 0..valid.len() {
@@ -451,8 +522,45 @@ fn cases(tier: Tier, seed: u64) -> Vec<Case> {
         }
         push(&mut v, entry, hv.to_uppercase().as_bytes(), "valid".into());
     }
-    for (entry, pem) in [("sm2.pub.spki_pem", &f.spki_pem), ("sm2.priv.pkcs8_pem", &f.pkcs8_pem)] {
+    for (entry, pem) in [("sm2.pub.spki_pem", &f.spki_pem), ("sm2.pub.parse", &f.spki_pem), ("sm2.priv.pkcs8_pem", &f.pkcs8_pem)] {
         push(&mut v, entry, pem.as_bytes(), "valid".into());
+        // the document's lines rearranged: every permutation, every line dropped / doubled, the armour lines
+        // fused, stray armour lines and text around an intact document, CRLF and blank-padded variants
+        {
+            let lines: Vec<&str> = pem.lines().collect();
+            let (bl, el) = (lines[0], lines[lines.len() - 1]);
+            for perm in crate::engine::permutations(&(0..lines.len()).collect::<Vec<usize>>()) {
+                let t: String = perm.iter().map(|&i| format!("{}\n", lines[i])).collect();
+                push(&mut v, entry, t.as_bytes(), "pem-lines-permuted".into());
+            }
+            for i in 0..lines.len() {
+                let dropped: String = lines.iter().enumerate().filter(|(j, _)| *j != i).map(|(_, l)| format!("{}\n", l)).collect();
+                push(&mut v, entry, dropped.as_bytes(), "pem-line-dropped".into());
+                let doubled: String = lines.iter().enumerate().flat_map(|(j, l)| if j == i { vec![*l, *l] } else { vec![*l] }).map(|l| format!("{}\n", l)).collect();
+                push(&mut v, entry, doubled.as_bytes(), "pem-line-doubled".into());
+            }
+            let body: String = lines[1..lines.len() - 1].concat();
+            for (fam, t) in [
+                ("pem-armour-fused", format!("{}{}", bl, &el[5..])),
+                ("pem-armour-fused", format!("{}{}", bl, el)),
+                ("pem-armour-fused", format!("{}\n{}\n", bl, el)),
+                ("pem-single-line", format!("{}{}{}", bl, body, el)),
+                ("pem-stray-armour", format!("{}\n{}", el, pem)),
+                ("pem-stray-armour", format!("{}\n{}", bl, pem)),
+                ("pem-stray-armour", format!("{}{}\n", pem, bl)),
+                ("pem-stray-armour", format!("{}{}\n", pem, el)),
+                ("pem-text-around", format!("my key ({} ... {}):\n{}thanks\n", bl, el, pem)),
+                ("pem-text-around", format!("key follows\n\n{}\n-- \nsignature\n", pem)),
+                ("pem-crlf", pem.replace('\n', "\r\n")),
+                ("pem-blank-padded", format!("  \n\t{}  \n", pem.replace('\n', " \n"))),
+                ("pem-twice", format!("{}{}", pem, pem)),
+                ("pem-body-only", format!("{}\n", body)),
+                ("pem-dashes-only", "-----".to_string()),
+                ("pem-dashes-only", "-----BEGIN -----\n-----END -----\n".to_string()),
+            ] {
+                push(&mut v, entry, t.as_bytes(), fam.into());
+            }
+        }
         let b = pem.as_bytes();
         for t in 0..b.len() {
             push(&mut v, entry, &b[..t], "truncation-of-valid".into());
@@ -568,7 +676,7 @@ pub fn run(ctx: &Arc<Ctx>) {
     refmodels::selftest::run(&["sm3", "sm2", "sm9"]).unwrap_or_else(|e| ctx.machinery_error(format!("reference self-test failed: {}", e)));
     let cs = Arc::new(cases(ctx.tier, ctx.seed));
     let limit = Duration::from_secs(ctx.tier.pick(5, 10));
-    ctx.set_rule("entry points: SM2 verify (signature and message), raw decryption (2 orders x 2 encodings), ASN.1 decryption, public/private key decoders for bytes, hex, DER and PEM, SM4 cipher construction, block encrypt/decrypt, mode construction and mode decryption (data and IV), SM9 decryption, SM9 verification (h and S from bytes, affine / Jacobian / infinity), identities of every length 0..=300 through SM9 decryption / verification / extraction and SM2 verification, mod_n_from_hash, the SM2 KDF, and (the property's anchors name eea.rs / eia.rs) ZUC / EEA3 / EIA3 construction from key and IV bytes and message buffers shorter than LENGTH; per byte-string parameter every length 0..=200 (0..=400 for SM9 decryption) x {0x00, 0xFF, seeded}; for each valid encoding (SM2 / SM9 ciphertexts also with a body of 32 and 64 bytes, the KDF block boundary) every truncation, every single-byte corruption (4 kinds per position) and trailing bytes; hex strings of every length 0..=140 and a non-hex character at every position; PEM truncations and corruptions; boundary private keys {0,1,n-2,n-1,n,2^256-1}: whatever the constructor accepts must sign, encrypt (also the empty message and 32- / 64-byte messages), decrypt and run a key agreement to completion; SM9 encrypt / sign / exchange with valid keys over lengths {1,31,32,33,64,96,128,255}. Each call runs in a child process under panic capture and a wall-clock watchdog. Oracle: outcome in {Ok, Err}; panic, overflow, abort and time-out are violations (whether an Ok was deserved is judged by C04/C06/C07/C19).");
+    ctx.set_rule("entry points: SM2 verify (signature and message), raw decryption (2 orders x 2 encodings), ASN.1 decryption, public/private key decoders for bytes, hex, DER and PEM, SM4 cipher construction, block encrypt/decrypt, mode construction and mode decryption (data and IV), SM9 decryption, SM9 verification (h and S from bytes, affine / Jacobian / infinity), identities of every length 0..=300 through SM9 decryption / verification / extraction and SM2 verification, mod_n_from_hash, the SM2 KDF, and (the property's anchors name eea.rs / eia.rs) ZUC / EEA3 / EIA3 construction from key and IV bytes and message buffers shorter than LENGTH; per byte-string parameter every length 0..=200 (0..=400 for SM9 decryption) x {0x00, 0xFF, seeded}; for each valid encoding (SM2 / SM9 ciphertexts also with a body of 32 and 64 bytes, the KDF block boundary) every truncation, every single-byte corruption (4 kinds per position) and trailing bytes; hex strings of every length 0..=140 and a non-hex character at every position; PEM truncations and corruptions, every permutation of a PEM document's lines, each line dropped / doubled, fused, stray and missing armour lines, surrounding text (through from_public_key_pem, str::parse and from_pkcs8_pem); raw SM2 ciphertexts and public keys of every length under every SEC1 tag byte {02,03,04,06,07}, and each ciphertext form presented (whole and truncated) to the entry points for the other forms; boundary private keys {0,1,n-2,n-1,n,2^256-1}: whatever the constructor accepts must sign, encrypt (also the empty message and 32- / 64-byte messages), decrypt and run a key agreement to completion; SM9 encrypt / sign / exchange with valid keys over lengths {1,31,32,33,64,96,128,255}. Each call runs in a child process under panic capture and a wall-clock watchdog. Oracle: outcome in {Ok, Err}; panic, overflow, abort and time-out are violations (whether an Ok was deserved is judged by C04/C06/C07/C19).");
     ctx.note_bound(format!("{} calls, watchdog {} s per call", cs.len(), limit.as_secs()));
     ctx.sample(serde_json::to_value(&cs[10]).unwrap());
     ctx.sample(serde_json::to_value(&cs[cs.len() - 1]).unwrap());
